@@ -601,6 +601,11 @@ func randIccDesc(r *rng, maxTags int) (*iccDesc, [][]byte) {
 				for k := range recs {
 					for {
 						l := [2]byte{byte('a' + r.intn(26)), byte('a' + r.intn(26))}
+						if r.intn(2) == 0 {
+							// languages real profiles carry (and process locales name)
+							cl := []string{"de", "fr", "ja", "es", "zh", "it", "ko", "pt", "nl", "ru", "sv", "da"}[r.intn(12)]
+							l = [2]byte{cl[0], cl[1]}
+						}
 						if l == [2]byte{'e', 'n'} {
 							continue
 						}
@@ -709,6 +714,19 @@ func randIccDesc(r *rng, maxTags int) (*iccDesc, [][]byte) {
 		a, b := r.intn(n), r.intn(n)
 		if a != b && a != descAt && b != descAt {
 			d.share[a] = b
+		}
+	}
+	if n > 1 && descAt >= 0 && r.intn(3) == 0 {
+		// another tag (listed before or after it in the table) shares the description's data block
+		a := r.intn(n)
+		_, already := d.share[a]
+		for _, tgt := range d.share {
+			if tgt == a {
+				already = true // no chains: a is itself the owner of a shared block
+			}
+		}
+		if a != descAt && !already {
+			d.share[a] = descAt
 		}
 	}
 	for k := 0; k < n; k++ {
